@@ -193,7 +193,12 @@ impl Op {
 pub enum Cap {
     B(u8),
     Unbounded,
+    /// bounded(3 000 000): larger than any pre-allocation limit one might put
+    /// into the constructor (72 MB of `[usize; 3]` messages)
+    Big,
 }
+
+pub const BIG: usize = 3_000_000;
 
 #[derive(Clone, Copy, Debug, PartialEq, Eq, Hash, PartialOrd, Ord, Serialize, Deserialize)]
 pub enum Class {
